@@ -71,9 +71,13 @@ static void do_line(char *work, const char *orig) {
 			KSI_VerificationContext vc;
 			KSI_VerificationContext_init(&vc, ctx);
 			vc.userPublication = pdata;
+			/* the caller's context holds other values: the signature's own document hash when a document hash is given
+			 * explicitly, another level when a level is given explicitly — what is given explicitly decides */
+			if (doc != NULL) KSI_Signature_getDocumentHash(sig, (KSI_DataHash **)&vc.documentHash);
+			if (level != 0) vc.docAggrLevel = (level == 1) ? 2 : 1;
 			r = KSI_Signature_verifyWithPolicy(sig, doc, level, pol, &vc);
 			printf(" A%d", r);
-			vc.userPublication = NULL;
+			vc.userPublication = NULL; vc.documentHash = NULL;
 			KSI_VerificationContext_clean(&vc);
 		}
 		if (isw) {
